@@ -501,7 +501,7 @@ func (g *Gen) pAddProps() float64 {
 func (g *Gen) MapObject(depth int) *Schema {
 	r := g.R
 	s := &Schema{Types: []string{"object"}}
-	switch r.IntN(5) {
+	switch r.IntN(9) {
 	case 0:
 	case 1:
 		s.AddProps = &Schema{Types: []string{"string"}}
@@ -511,6 +511,23 @@ func (g *Gen) MapObject(depth int) *Schema {
 		s.AddProps = &Schema{Types: []string{"boolean"}}
 	case 4:
 		s.AddProps = &Schema{Types: []string{"number"}}
+	case 5: // nullable value type
+		t := PickOf(r, []string{"integer", "string", "boolean", "number"})
+		if r.Chance(0.5) {
+			s.AddProps = &Schema{Types: []string{t, "null"}}
+		} else {
+			s.AddProps = &Schema{Types: []string{"null", t}}
+		}
+	case 6: // values of a named type
+		if g.O.NoRefs {
+			s.AddProps = &Schema{Types: []string{"integer"}}
+		} else {
+			s.AddProps = g.RefTo(g.defSubject(depth + 1))
+		}
+	case 7:
+		s.AddProps = &Schema{Types: []string{"array"}, Items: &Schema{Types: []string{PickOf(r, []string{"integer", "string"})}}}
+	case 8:
+		s.AddProps = &Schema{Types: []string{"object"}, Props: []Prop{{"inner", &Schema{Types: []string{"integer"}}}}, Required: []string{"inner"}}
 	}
 	return s
 }
